@@ -674,7 +674,8 @@ Note2: that Reed-Solomon can correct up to 2*resilience_rate erasures (eg, null 
                         if repaired_block is not None:
                             hash_ok = (hasher.hash(repaired_block) == e["hash"])
                             ecc_ok = ecc_manager.check(repaired_block, repaired_ecc)
-                        if repaired_block is not None and (hash_ok or ecc_ok): # If either the hash or the ecc check now match the repaired message block, we commit the new block
+                        ecc_complete = (len(e["ecc"]) >= ecc_params["ecc_size"]) # if the ecc of this block is incomplete (truncated ecc file), the missing symbols were replaced by null bytes for the decoding: the ecc check of the repaired block then proves nothing (a short block can be "repaired" into null bytes), only the hash does
+                        if repaired_block is not None and (hash_ok or (ecc_ok and ecc_complete)): # If either the hash or the ecc check now match the repaired message block, we commit the new block
                             entry_asm[i]["message_repaired"] = repaired_block # save the repaired block
                             # Show a precise report about the repair
                             if hash_ok and ecc_ok: ptee.write("File %s: block %i repaired!" % (relfilepath, i))
